@@ -13,9 +13,15 @@ def plan(tier, seed):
         plan.modules.append(("src/rgb_xyb.rs", X.module(native.consts(ctx))))
         plan.harnesses = [
             dict(name="k_xyb_k_consts", family="K", timeout=600, mem_gb=8, replay=None, covers=[], obligation="opsin matrix, bias, inverse matrix and negated bias in the compiled code equal the extracted constants used by the glue", sym="none"),
-            dict(name="k_xyb_w_forward", family="W", timeout=2400, mem_gb=12, replay=X.replay_xyb, dir="fwd", covers=["negative mix (clamped) explored", "bright pixel explored"],
+            dict(name="k_xyb_w_forward_x", family="W", timeout=2400, mem_gb=12, replay=X.replay_xyb, dir="fwd", covers=["negative mix (clamped) explored", "bright pixel explored"],
                  obligation="Xyb::from(LinearRgb) on a 1-pixel image is bit-identical to ((L-M)/2,(L+M)/2,S), (L,M,S) = cbrt(max(0, A*rgb+b)) - cbrt(b), written in the same operation order (cbrtf replaced by a pure monotone stand-in on both sides); dimensions preserved",
-                 sym="pixel on the fixed-point grid k/16 in [-1,4]^3 (81^3 pixels, symbolic; includes every sign pattern of the three opsin mixes)"),
+                 sym="pixel on the fixed-point grid k/8 in [-1,4]^3 (41^3 pixels, symbolic; includes every sign pattern of the three opsin mixes)"),
+            dict(name="k_xyb_w_forward_y", family="W", timeout=2400, mem_gb=12, replay=X.replay_xyb, dir="fwd", covers=["negative mix (clamped) explored", "bright pixel explored"],
+                 obligation="Xyb::from(LinearRgb) on a 1-pixel image is bit-identical to ((L-M)/2,(L+M)/2,S), (L,M,S) = cbrt(max(0, A*rgb+b)) - cbrt(b), written in the same operation order (cbrtf replaced by a pure monotone stand-in on both sides); dimensions preserved",
+                 sym="pixel on the fixed-point grid k/8 in [-1,4]^3 (41^3 pixels, symbolic; includes every sign pattern of the three opsin mixes)"),
+            dict(name="k_xyb_w_forward_b", family="W", timeout=2400, mem_gb=12, replay=X.replay_xyb, dir="fwd", covers=["negative mix (clamped) explored", "bright pixel explored"],
+                 obligation="Xyb::from(LinearRgb) on a 1-pixel image is bit-identical to ((L-M)/2,(L+M)/2,S), (L,M,S) = cbrt(max(0, A*rgb+b)) - cbrt(b), written in the same operation order (cbrtf replaced by a pure monotone stand-in on both sides); dimensions preserved",
+                 sym="pixel on the fixed-point grid k/8 in [-1,4]^3 (41^3 pixels, symbolic; includes every sign pattern of the three opsin mixes)"),
         ]
 
     def g(ctx):
